@@ -16,6 +16,10 @@ KNOWN = '/verif/tables/known_functions.json'
 MAX_ROUNDS = 4
 
 
+CALLBACK_TRAITS = (' as std::io::', ' as std::iter::Iterator>', ' as std::ops::Drop>', ' as std::ops::Deref', ' as std::ops::Index',
+                   ' as std::ops::Fn', ' as std::iter::IntoIterator>')
+
+
 def _strip(path):
     from facts import strip_generics
     return strip_generics(path)
@@ -523,9 +527,10 @@ def apply(j):
     for p in new:
         still_called = any(t and t['k'] == 'call' and _callee_path(t, bodies) == p for b in j['bodies'] if b['path'] not in new
                            for blk in b['blocks'] for t in [blk['term']])
-        if p in values or still_called or ' as ' in p:
-            # (a method of a trait impl is reached through the trait - `impl Read for Wrapper` is called by std's read_exact, `impl
-            # Iterator` by a `for` loop, `impl Drop` by scope exit - so it stays visible to the rules that scan every body)
+        if p in values or still_called or any(k_ in p for k_ in CALLBACK_TRAITS):
+            # (a method of such a trait impl is reached through the trait - `impl Read for Wrapper` is called by std's read_exact, `impl
+            # Iterator` by a `for` loop, `impl Drop` by scope exit - so it stays visible to the rules that scan every body; unused derived
+            # Clone / PartialEq / Debug impls of a new derive are dropped like any other unused new function)
             report['kept'].append(p)
         else:
             drop.add(p)
